@@ -117,7 +117,12 @@ func vMakeService(s string, raw json.RawMessage) *v1.Service {
 		svc.Spec.ExternalTrafficPolicy = v1.ServiceExternalTrafficPolicyTypeLocal
 	}
 	if sp.Sel != "" {
-		svc.Spec.Selector = map[string]string{"app": sp.Sel}
+		// "x+z" stands for the two-label selector {app: x, tier: z}
+		if i := strings.IndexByte(sp.Sel, '+'); i >= 0 {
+			svc.Spec.Selector = map[string]string{"app": sp.Sel[:i], "tier": sp.Sel[i+1:]}
+		} else {
+			svc.Spec.Selector = map[string]string{"app": sp.Sel}
+		}
 	}
 	ann := map[string]string{}
 	kShare, kIPs, kPool := AnnotationAllowSharedIP, AnnotationLoadBalancerIPs, AnnotationAddressPool
@@ -601,7 +606,7 @@ func (w *vWorld) observe(idx int, raw json.RawMessage, op, s string, crashed boo
 	o["api"] = api
 	mem := map[string]vObsMem{}
 	for k, al := range allocator.VerifSnapshot(w.c.ips) {
-		e := vObsMem{Pool: al.Pool, Ips: kit.AbsList(al.IPs), Sk: al.Sharing, Bk: strings.Replace(al.Backend, "app=", "", 1), Ports: []string{}}
+		e := vObsMem{Pool: al.Pool, Ips: kit.AbsList(al.IPs), Sk: al.Sharing, Bk: strings.Replace(strings.Replace(al.Backend, "app=", "", 1), ",tier=", "+", 1), Ports: []string{}}
 		for _, p := range al.Ports {
 			e.Ports = append(e.Ports, kit.PortName(p.Proto, p.Port))
 		}
